@@ -136,6 +136,17 @@ def run(ctx):
         victim = list(ps.paths.values())[k % len(ps.paths)]
         del fs[victim]
         extra_cases.append({"set": ps, "desc": "volumes-concatenated-copy+delete", "fs": fs, "vline": L.line_verify("p2", "mem", ps.index, 1, fs)})
+    # on a REAL directory (the listing of recovery files is the operating system's, not the in-memory one), index names with
+    # glob metacharacters, dots and spaces: the blocks beside the index are found by literal prefix and suffix
+    rsets = [P.PSet({"a.dat": L.gen_content(rng, "random", 21), "b": L.gen_content(rng, "random", 9)}, 4, 3, g=1, base=b_, tag="real:" + b_)
+             for b_ in ("backup[2019]", "we*ird", "q?x", "photos.2022", "a b", "br{ace}", "back\\slash")]
+    P.create_all(ctx, vh, model, rsets)
+    for ps in rsets:
+        if ps.created is None:
+            report("Create failed for the index name %r" % ps.base, {"lines": [ps.create_line("mem")], "class": {"pattern": "real-names"}}); continue
+        fs = dict(ps.created); del fs[ps.paths["b"]]
+        extra_cases.append({"set": ps, "desc": "real-directory:" + ps.base, "fs": fs, "real": True,
+                            "vline": L.line_verify("p2", "real", ps.index, 1, fs, dirs=[P.DIR])})
     allc = [c for c in cases] + extra_cases
     vi, vm = P.run_both(ctx, vh, model, [c["vline"] for c in allc])
     dist = {"pattern": {}, "clean_reports": 0, "clean_but_damaged": 0, "all_slices_usable_but_files_wrong": 0}
@@ -191,7 +202,7 @@ def run(ctx):
         # (d) possible iff unusable <= usable blocks
         if (ca["possible"] == 1) != (ca["unusable"] <= ca["pusable"]):
             report("repair possible = %d with %d unusable slices and %d usable blocks (%s)" % (ca["possible"], ca["unusable"], ca["pusable"], c["desc"]), replay); continue
-        if a != b:
+        if (L.canon(a, "real") != L.canon(b, "real")) if c.get("real") else (a != b):
             report("Verify differs from the proved model (%s): impl=%s model=%s" % (c["desc"], a.split(" trace=")[0], b.split(" trace=")[0]), replay, nf=True)
         if wrong and ca["unusable"] == 0 and len(ctx.samples) < 5:
             ctx.sample({"pattern": c["desc"], "verify": a.split(" trace=")[0]})
